@@ -298,6 +298,29 @@ def p10(ctx, rid):
                     blk, poly.show(cap), ', '.join('%s = floor((%s) / (%s))' % (q, poly.show(X), poly.show(D)) for q, (X, D) in ce.facts.items()), poly.show(bound), blk))
 
 
+def p11(ctx, rid):
+    """`identically (same headers, same order)`: the order of a key's versions is defined in exactly one place each - the position
+    chosen at insertion for the in-memory index (C02.U10) and the order of the leaf section for the index file.  No function
+    of the index code re-sorts a vector of record headers: a sort by timestamp cannot reproduce the append order of equal
+    timestamps (a stable sort followed by reverse flips every tie)."""
+    prog = ctx.prog
+    n = 0
+    bad = None
+    for f in prog.fns.values():
+        if not f.file.startswith('src/blob/index/'):
+            continue
+        n += 1
+        for c in f.calls:
+            if c.bb in f.reachable() and c.name.startswith('sort') and ('record::record::Header' in c.full or 'RecordHeader' in c.full):
+                bad = c
+    if n < 20:
+        raise core.AnchorLost('functions in src/blob/index: %d' % n)
+    if bad:
+        ctx.bad(rid, 'no-resort-of-versions', bad.where(), 'a vector of record headers is re-sorted (`%s`) in the index code: versions with equal timestamps come out in a different order than the in-memory index / the leaf section holds them' % bad.name)
+    else:
+        ctx.ok(rid, 'no-resort-of-versions', '', 'no sort of record-header vectors in %d index functions' % n, nontrivial=False, queries=n)
+
+
 RULES = [
     Rule('C09.P1', 'keys are ordered through the key type, never as raw byte strings, in the index code (C04.T10 instances)', p1, 4),
     Rule('C09.P2', 'cursors over the on-disk leaf region move by whole record headers (C04.T12 instances)', p2, 4),
@@ -308,5 +331,6 @@ RULES = [
     Rule('C09.P8', 'the in-buffer walk always hands over to the file walk unless it saw the next key', p8, 1),
     Rule('C09.P9', 'the reused buffer of the on-disk walks is resized before every exact read (C05.V12 instances)', p9, 3),
     Rule('C09.P10', 'a completely filled non-leaf node fits into one block for every key length (polynomial evaluation of the fan-out and node-size formulas)', p10, 1),
+    Rule('C09.P11', 'no function of the index code re-sorts a vector of record headers', p11, 1),
     Rule('C09.P5', 'the on-disk latest-version lookup takes the leftmost header of the key', p5, 1),
 ]
